@@ -82,6 +82,11 @@ CHECKS = {
             "Well-formedness (balanced braces, matched delimiters/environments) is checked lexically on every rendering (no solver). For every rendering inside the reader's grammar z3 decides that its value equals the original's for ALL positive real leaf values.",
             "Trusted: z3 nlsat, vlib/latexparse.py, SymPy arithmetic. Renderings outside the reader's grammar are inconclusive for meaning (counted), never passed. Unevaluated synthetic trees are outside the property's quantifier.",
             "3.18"),
+    "C01": ("D", "other",
+            "independent walker over the real equation objects emitting linear constraints on dimension-exponent vectors (wildcards existential, symbolic exponents as atoms); z3 QF_LRA per equation with unsat cores",
+            "Every public equation of every catalogue module is decided: the linear system of dimensional requirements is satisfiable (homogeneous for every value of the symbols, wildcards chosen existentially) or z3's unsat core names the conflicting sub-terms. Exhaustive over the catalogue; node types outside the rule list are reported unencoded.",
+            "Trusted: z3 QF_LRA, sympy get_dimensional_dependencies on declared dimensions, the rule set of vlib/dimlra.py (DESIGN 3.1).",
+            "3.1"),
 }
 
 NOT_APPLICABLE = {
